@@ -317,7 +317,7 @@ class GenCfg:
         self.options = not fleet and rng.chance(0.3)
         # rarely combined but legal features (compiler world only)
         # empty (reserved) messages are documented: `message Inner' {}` still costs its 16-bit prefix
-        self.p_empty = rng.choice([0.0, 0.08, 0.2]) if fleet else rng.choice([0.0, 0.1, 0.25])
+        self.p_empty = rng.choice([0.0, 0.1, 0.25]) if fleet else rng.choice([0.0, 0.1, 0.25])
         self.odd_names = not fleet and rng.chance(0.3)
         self.shadow = not fleet and rng.chance(0.3)
         self.wide_enums = not fleet and rng.chance(0.4)
